@@ -688,3 +688,31 @@ Proof.
 Qed.
 Lemma link_re_cmp a b : M_RE_cmp a b = Some (N.compare (rid (conv_re a)) (rid (conv_re b))).
 Proof. rewrite canon_re_cmp, !rid_conv. f_equal. apply Nat2N.inj_compare. Qed.
+
+(* ---- contains: the search in a list of terms sorted by id (== and > go through the translated impl PartialEq / Ord
+   of RE) ---- *)
+Require Constructors.
+Lemma pure_re_eq a b : RE_eq a b = re_eqb (conv_re a) (conv_re b).
+Proof. pose proof (link_re_eq a b) as H. unfold M_RE_eq in H. injection H as H. exact H. Qed.
+Lemma pure_re_cmp a b : RE_cmp a b = N.compare (rid (conv_re a)) (rid (conv_re b)).
+Proof. pose proof (link_re_cmp a b) as H. unfold M_RE_cmp in H. injection H as H. exact H. Qed.
+
+Definition contains_res (r : option (loopres bool unit)) : option bool :=
+  match r with Some (LoopReturn b) => Some b | Some (LoopDone _) => Some false | None => None end.
+Lemma link_contains_loop x : forall v, contains_res (fn_contains_loop1 v x) = Some (Constructors.contains (map conv_re v) (conv_re x)).
+Proof.
+  induction v as [|y v IH]; [reflexivity|]. cbn [fn_contains_loop1 map Constructors.contains].
+  rewrite ?pure_re_eq, ?pure_re_cmp. unfold re_eqb, N.ltb.
+  (* either orientation of == and of the order test *)
+  rewrite ?(N.eqb_sym (rid (conv_re x)) (rid (conv_re y))), ?(N.compare_antisym (rid (conv_re x)) (rid (conv_re y))).
+  destruct (N.eqb_spec (rid (conv_re y)) (rid (conv_re x))) as [E|E];
+    destruct (N.compare_spec (rid (conv_re x)) (rid (conv_re y))) as [C|C|C]; cbn [CompOpp];
+    first [ reflexivity | exact IH | (exfalso; lia) ].
+Qed.
+Lemma link_contains v x : M_fn_contains v x = Some (Constructors.contains (map conv_re v) (conv_re x)).
+Proof.
+  unfold M_fn_contains, fn_contains. pose proof (link_contains_loop x v) as H.
+  destruct (fn_contains_loop1 v x) as [[b|u]|]; cbn [contains_res bind] in *; congruence.
+Qed.
+Lemma link_is_atomic k : M_BaseRegLan_is_atomic k = Some (match conv_base k with NEmpty | NEps | NRange _ => true | _ => false end).
+Proof. destruct k; reflexivity. Qed.
